@@ -471,6 +471,23 @@ fn tdf_case(run: &mut Run, input: &str, f: &TFont) {
     run.nontrivial(fnv(d.bytes().map(|b| b as u64)));
     let wf_full = wf_tdf(f);
     run.case(&format!("tdf wf {d}"), &wf_full.to_string());
+    // the glyph presence table through `has_char`, for codes on both sides of the table (code 127 panics: off-by-one guard)
+    {
+        let k = fnv(d.bytes().map(|b| b as u64));
+        let codes: Vec<u8> = vec![0, 32, 33, 34 + (k % 90) as u8, 126, 127, 128, 255, (k >> 8) as u8];
+        let obs: Vec<String> = codes.iter().map(|c| match catch(std::panic::AssertUnwindSafe(|| t.has_char(*c))) {
+            Ok(b) => b.to_string(),
+            Err(_) => "panic".to_string(),
+        }).collect();
+        run.case(&format!("tdf has {} {d}", codes.iter().map(|c| c.to_string()).collect::<Vec<_>>().join(",")), &format!("{} height={}", obs.join(" "), t.get_font_height()));
+        // oracle: inside the table `has_char` says what was put in
+        for (i, g) in f.table.iter().enumerate() {
+            if catch(std::panic::AssertUnwindSafe(|| t.has_char(33 + i as u8))).ok() != Some(g.is_some()) {
+                run.oracle_fail("tdf_presence", input, &format!("has_char({}) does not say whether glyph {i} is defined", 33 + i));
+                break;
+            }
+        }
+    }
     let enc = catch(std::panic::AssertUnwindSafe(|| t.as_tdf_bytes().map_err(|_| ())));
     run.case(&format!("tdf enc {d}"), &hash_res(enc.clone()));
     // a font too big for the 16-bit fields must be REFUSED by the writer; if it is written it has to read back
@@ -492,6 +509,10 @@ fn tdf_case(run: &mut Run, input: &str, f: &TFont) {
             // excluded point executed on the implementation: record what happens, no verdict
             let same = fs.len() == 1 && same_tdf(f, bytes, &fs[0]).is_ok();
             run.count(if same { "tdf excluded point: still round-trips" } else { "tdf excluded point: does not round-trip" });
+            if same {
+                // `tdf_rt_iff`: outside WfTdf the font does NOT come back — if it does, the domain is not exact
+                run.oracle_fail("tdf_domain_not_exact", input, "a TheDraw font outside WfTdf came back unchanged");
+            }
         }
     } else if wf_full {
         run.oracle_fail("tdf_rt", input, "as_tdf_bytes failed on a well-formed font");
@@ -627,6 +648,62 @@ fn one(run: &mut Run, input: &str) {
             let obs = load_obs(run, input, unhex(f[0]));
             run.case(&format!("font shape font {}", f[0]), &obs);
             run.count("fontbytes");
+        }
+        // PSF1 file: mode byte, char size, n glyphs (filler), `tail` further bytes (a unicode table / a partial glyph)
+        "psf1f" => {
+            let (mode, h, n, tail, seed): (u8, usize, usize, usize, u64) = (f[0].parse().unwrap_or(0), f[1].parse().unwrap_or(1), f[2].parse().unwrap_or(256), f[3].parse().unwrap_or(0), f[4].parse().unwrap_or(0));
+            let mut b = vec![0x36, 0x04, mode, h as u8];
+            let data = fill_bytes(n * h, seed);
+            b.extend(&data);
+            b.extend(vec![0xFF; tail]);
+            let obs = load_obs(run, input, b.clone());
+            run.case(&format!("font shape font {}", hex(&b)), &obs);
+            run.count(&format!("psf1 file mode&1={} mode>>1={} glyphs={} tail={}", mode & 1, if mode >> 1 == 0 { "0" } else { "set" }, if n == 256 || n == 512 { n.to_string() } else { "other".into() }, if tail == 0 { "0" } else if tail < h { "<h" } else { ">=h" }));
+            // oracle: a PSF1 file holding exactly the announced number of glyphs survives the engine's own encoding
+            let announced = if mode & 1 == 1 { 512 } else { 256 };
+            if n == announced && tail < h && h >= 1 {
+                match catch(|| BitFont::from_bytes("p", &b)) {
+                    Ok(Ok(font)) => {
+                        let ok_shape = font.length as usize == n && font.glyphs.len() == n && font.size.height as usize == h && (0..n).all(|i| font.get_glyph(char::from_u32(i as u32).unwrap()).map(|g| g.data[..] == data[i * h..(i + 1) * h]).unwrap_or(false));
+                        if !ok_shape {
+                            run.oracle_fail("psf1_load", input, "a PSF1 file is not loaded as the glyphs it holds");
+                        }
+                        match catch(std::panic::AssertUnwindSafe(|| font.to_psf2_bytes().map_err(|_| ()).and_then(|p| BitFont::from_bytes("q", &p).map_err(|_| ())))) {
+                            Ok(Ok(back)) => {
+                                if let Err(e) = same_font(&font, &back) {
+                                    run.oracle_fail("psf1_to_psf2_rt", input, &format!("PSF1 font through to_psf2_bytes / from_bytes: {e}"));
+                                }
+                            }
+                            _ => run.oracle_fail("psf1_to_psf2_rt", input, "PSF1 font: to_psf2_bytes / from_bytes failed"),
+                        }
+                    }
+                    _ => run.oracle_fail("psf1_load", input, "a PSF1 file with the announced number of glyphs is rejected"),
+                }
+            }
+        }
+        // PSF2 file: header size (padding of hs-32 bytes when hs > 32), flags, height, n glyphs, `tail` bytes behind the glyphs
+        "psf2f" => {
+            let (hs, flags, h, n, tail, seed): (u32, u32, usize, usize, usize, u64) = (f[0].parse().unwrap_or(32), f[1].parse().unwrap_or(0), f[2].parse().unwrap_or(1), f[3].parse().unwrap_or(256), f[4].parse().unwrap_or(0), f[5].parse().unwrap_or(0));
+            let mut b = psf2_header(0, hs, n as u32, h as u32, h as u32, 8);
+            b[12..16].copy_from_slice(&flags.to_le_bytes());
+            b.extend(vec![0xEE; (hs as usize).saturating_sub(32)]);
+            let data = fill_bytes(n * h, seed);
+            b.extend(&data);
+            b.extend(vec![0xFF; tail]);
+            let obs = load_obs(run, input, b.clone());
+            run.case(&format!("font shape font {}", hex(&b)), &obs);
+            run.count(&format!("psf2 file hs={} flags={} tail={}", if hs == 32 { "32" } else if hs > 32 { ">32" } else { "<32" }, if flags == 0 { "0" } else { "set" }, u8::from(tail > 0)));
+            if hs >= 32 && tail == 0 && h >= 1 && n >= 1 {
+                match catch(|| BitFont::from_bytes("p", &b)) {
+                    Ok(Ok(font)) => {
+                        let ok_shape = font.length as usize == n && font.glyphs.len() == n && font.size.height as usize == h && (0..n).all(|i| font.get_glyph(char::from_u32(i as u32).unwrap()).map(|g| g.data[..] == data[i * h..(i + 1) * h]).unwrap_or(false));
+                        if !ok_shape {
+                            run.oracle_fail("psf2_headersize_rt", input, "a PSF2 file with a padded header / flags is not loaded as the glyphs it holds");
+                        }
+                    }
+                    _ => run.oracle_fail("psf2_headersize_rt", input, "a PSF2 file with a padded header / flags is rejected"),
+                }
+            }
         }
         "fontdesc" => {
             // psf1/psf2/raw descriptors as in C10
@@ -865,6 +942,18 @@ fn one(run: &mut Run, input: &str) {
             }
             run.count("tdfload");
         }
+        // whole character streams through the real parser vs `Model/FontDcs.lean` (the DCS framing of `CTerm:Font:`)
+        "dcsrun" => {
+            let stream = String::from_utf8_lossy(&unhex(f[0])).to_string();
+            crate::fontdcs::stream_case(run, input, &stream);
+            run.count("dcs stream literal");
+        }
+        "dcsr" => {
+            let stream = crate::fontdcs::random_stream(f[0].parse().unwrap_or(0));
+            crate::fontdcs::stream_case(run, input, &stream);
+            run.count("dcs stream random units");
+        }
+        "dcsg" => crate::fontdcs::generated_case(run, input, f[0], f.get(1).and_then(|x| x.parse().ok()).unwrap_or(0)),
         "box" => crate::fontbox::file_case(run, input, &f),
         "icy" => crate::fontbox::icy_case(run, input, &f),
         "tdfraw" => {
@@ -1030,6 +1119,44 @@ pub fn run(run: &mut Run, seed: u64, thorough: bool, replay: Option<&str>, corpu
             one(run, &format!("tdf:{}", tfont_desc(&t, ":")));
         }
     }
+    // one clause of WfTdf broken in an otherwise random font (the domain is exact: none of these may come back)
+    for _ in 0..8 * m {
+        let mut t = gen_tfont(&mut rng, 12, false);
+        if t.table.iter().all(|g| g.is_none()) {
+            t.table[rng.below(94) as usize] = Some(gen_glyph(&mut rng, t.ty, false));
+        }
+        let defined: Vec<usize> = (0..94).filter(|i| t.table[*i].is_some()).collect();
+        let gi = *rng.pick(&defined);
+        match rng.below(7) {
+            0 => {
+                let mut b = t.name.clone().into_bytes();
+                b.retain(|c| c.is_ascii());
+                let at = rng.below(b.len() as u64 + 1) as usize;
+                b.insert(at, 0);
+                b.truncate(12);
+                t.name = String::from_utf8(b).unwrap_or_default();
+            }
+            1 => t.spaces = *rng.pick(&[-1, 41, 255, -200, 256, 296]),
+            2 => t.table[gi].as_mut().unwrap().w = *rng.pick(&[-1, 256, 300, -256]),
+            3 => t.table[gi].as_mut().unwrap().h = *rng.pick(&[-1, 256, 300, -256]),
+            4 => {
+                let g = t.table[gi].as_mut().unwrap();
+                let at = rng.below(g.data.len() as u64 + 1) as usize;
+                // (in colour data only at a character position, else it is an attribute byte and legal)
+                let at = if t.ty == 2 { 0 } else { at };
+                g.data.insert(at, 0);
+            }
+            5 => {
+                t.ty = 2;
+                for g in t.table.iter_mut().flatten() {
+                    *g = gen_glyph(&mut rng, 2, false);
+                }
+                t.table[gi].as_mut().unwrap().data.push(*rng.pick(&[65u8, 219, 1, 255]));
+            }
+            _ => t.name = "thirteen chars".chars().take(13).collect(),
+        }
+        one(run, &format!("tdf:{}", tfont_desc(&t, ":")));
+    }
     // bundles of 1..=34 fonts
     let sizes: Vec<usize> = if thorough { (1..=34).collect() } else { vec![1, 2, 3, 6, 34] };
     for n in sizes {
@@ -1172,6 +1299,34 @@ pub fn run(run: &mut Run, seed: u64, thorough: bool, replay: Option<&str>, corpu
     // fonts inside containers, next to the other optional blocks (own generator state: the cases above keep their seeds)
     let mut brng = Rng::new(seed ^ 0xB0C5);
     for t in crate::fontbox::cases(&mut brng, thorough) {
+        one(run, &t);
+    }
+    // PSF1 / PSF2 files as the loader reads them: every mode bit, unicode tables, header sizes, flags
+    let mut prng = Rng::new(seed ^ 0x95F1);
+    for mode in [0u8, 1, 2, 3, 4, 5, 6, 7, 254, 255] {
+        let announced = if mode & 1 == 1 { 512 } else { 256 };
+        let h = prng.range(1, 4) as usize;
+        one(run, &format!("psf1f:{mode}:{h}:{announced}:0:{}", prng.below(1000)));
+        one(run, &format!("psf1f:{mode}:{h}:{announced}:{}:{}", prng.range(1, 2 * h as i64 + 2), prng.below(1000)));
+        one(run, &format!("psf1f:{mode}:{h}:{}:{}:{}", *prng.pick(&[0usize, 1, 255, 257, 511, 513, 600]), prng.below(h as u64 + 1), prng.below(1000)));
+    }
+    for h in [1usize, 8, 16, 32] {
+        one(run, &format!("psf1f:1:{h}:512:0:{}", prng.below(1000)));
+        one(run, &format!("psf1f:0:{h}:256:{}:{}", h - 1, prng.below(1000)));
+    }
+    for hs in [32u32, 33, 40, 64, 1000, 16, 12, 0] {
+        for flags in [0u32, 1, 0xFFFF_FFFF] {
+            let h = prng.range(1, 3) as usize;
+            let n = *prng.pick(&[256usize, 512, 1, 300]);
+            one(run, &format!("psf2f:{hs}:{flags}:{h}:{n}:0:{}", prng.below(1000)));
+            if hs >= 32 {
+                one(run, &format!("psf2f:{hs}:{flags}:{h}:{n}:{}:{}", prng.range(1, 6), prng.below(1000)));
+            }
+        }
+    }
+    // the DCS framing: streams through the real parser (own generator state)
+    let mut drng = Rng::new(seed ^ 0xDC5F);
+    for t in crate::fontdcs::cases(&mut drng, thorough) {
         one(run, &t);
     }
     run.extra.push(("heights_1_to_32_all_covered".into(), "true".into()));
